@@ -365,6 +365,59 @@ func (g G) GBK(maxRunes int) string {
 	return string(r)
 }
 
+// GBKLong: text whose GBK encoding has at most maxBytes bytes, long: a target length near the limit (or anywhere), filled
+// with a run of ONE character (ASCII, a two-byte character, an edge code point such as the one-byte euro sign whose UTF-8
+// form is three times as long), with two alternating characters, or with random round-trippable characters.
+func (g G) GBKLong(maxBytes int) string {
+	target := maxBytes - g.Intn(3)
+	if g.Chance(1, 3) {
+		target = 1 + g.Intn(maxBytes)
+	}
+	rs := GBKRunes()
+	edge := gbkEdgeRunes()
+	pick := func() rune {
+		switch g.Intn(4) {
+		case 0:
+			return rs[g.Intn(95)]
+		case 1:
+			if len(edge) > 0 {
+				return edge[g.Intn(len(edge))]
+			}
+		case 2:
+			return '\u20ac'
+		}
+		return rs[g.Intn(len(rs))]
+	}
+	var out []rune
+	n := 0
+	add := func(r rune) bool {
+		l := len(GBKEncode(string(r)))
+		if l == 0 || n+l > target {
+			return false
+		}
+		out = append(out, r)
+		n += l
+		return true
+	}
+	switch g.Intn(3) {
+	case 0: // one character repeated
+		r := pick()
+		for add(r) {
+		}
+	case 1: // two characters alternating
+		a, b := pick(), pick()
+		for add(a) && add(b) {
+		}
+	default:
+		for tries := 0; tries < 2*maxBytes && n < target; tries++ {
+			add(pick())
+		}
+	}
+	for n < target && add(rs[g.Intn(95)]) { // fill up with ASCII to the exact target
+	}
+	return string(out)
+}
+
 func (g G) Loc() model.T0x0200LocationItem {
 	return model.T0x0200LocationItem{AlarmSign: g.Word32(), StatusSign: g.Word32(), Latitude: g.Word32(), Longitude: g.Word32(), Altitude: g.U16(), Speed: g.U16(), Direction: g.U16(), DateTime: g.TS()}
 }
@@ -507,6 +560,9 @@ func (g G) TerminalParams(pick func(name string) bool) (tp model.TerminalParamDe
 			fv.FieldByName("Len").SetUint(1)
 		case reflect.String:
 			s := g.GBK(6) + g.Str(1+g.Intn(5))
+			if g.Chance(1, 4) {
+				s = g.GBKLong(255) // the length byte allows 255 GBK bytes: long values, runs of one character, exact limits
+			}
 			val.SetString(s)
 			fv.FieldByName("Len").SetUint(uint64(len(GBKEncode(s))))
 		case reflect.Array:
